@@ -435,3 +435,40 @@ def returns_on_empty_sequence(a: int, sb: bool, tb: bool) -> bool:
         if rt is not None and not match_sequence_type(r, rt, P31):
             return False
     return True
+
+
+# --- added after round-4 seeded changes: function conversion rules applied to the RESULT of a function item with a declared type ----------
+
+TOK_CONV = parse_all({
+    'dbl': 'let $r := function() as xs:double { $k }() return ($r instance of xs:double, $r treat as xs:double, $r)',
+    'dbl_seq': 'let $r := function($x) as xs:double* { ($x, $k) }($k2) return (count($r), every $v in $r satisfies $v instance of xs:double)',
+    'str_uri': 'let $r := function() as xs:string { xs:anyURI($s) }() return ($r instance of xs:string, $r)',
+    'untyped': 'let $r := function() as xs:integer { xs:untypedAtomic(string($k)) }() return ($r instance of xs:integer, $r)',
+    'foreach': 'for-each(($k, $k2), function($x) as xs:double { $x }) ! (. instance of xs:double)',
+    'dec': 'let $r := function() as xs:decimal { $k }() return ($r instance of xs:decimal, $r)',
+    'flt': 'let $r := function() as xs:float { $k }() return ($r instance of xs:float, $r instance of xs:double)',
+})
+
+
+@ob(budget=120, bound='k in [-2, 2], k2 in [0, 1], s in {empty, a} (chosen by the solver, concrete on each path): the value returned by a function item with a '
+                      'declared result type is the CONVERTED value (integer -> double / decimal / float promotion, anyURI -> string), also '
+                      ' inside sequences and through for-each',
+    funcs=['elementpath/xpath_tokens/functions.py:XPathFunction.validated_result', 'elementpath/xpath_tokens/base.py:cast_to_primitive_type'])
+def declared_result_is_converted(k: int, k2: int, s: str) -> bool:
+    """
+    pre: -2 <= k <= 2 and 0 <= k2 <= 1 and len(s) <= 1 and all(c == 'a' for c in s)
+    post: _
+    """
+    k = [j for j in range(-2, 3) if j == k][0]
+    k2 = 1 if k2 == 1 else 0
+    s = 'a' if s == 'a' else ''
+    v = dict(k=k, k2=k2, s=s)
+    r = ev(TOK_CONV['dbl'], **v)
+    if r[:1] != [True] or len(r) != 3 or not isinstance(r[1], float) or r[1] != k or not isinstance(r[2], float):
+        return False
+    if ev(TOK_CONV['dbl_seq'], **v) != [2, True] or ev(TOK_CONV['foreach'], **v) != [True, True]:
+        return False
+    r = ev(TOK_CONV['str_uri'], **v)
+    if r != [True, s] or not isinstance(r[1], str):
+        return False
+    return ev(TOK_CONV['dec'], **v)[:1] == [True] and ev(TOK_CONV['flt'], **v) == [True, False]
